@@ -69,6 +69,13 @@ type Write struct {
 	Func   string `json:"func"`   // enclosing function
 }
 
+// StackLit is a construction site of a tree.ResumeStack value
+type StackLit struct {
+	File string `json:"file"`
+	Line int    `json:"line"`
+	Keys int    `json:"keys"` // number of entries of the literal; -1 = make()/conversion (size unknown)
+}
+
 type Allow struct {
 	Var, Kind, Detail, Why string
 	// optional condition `needs=<var>:<kind>:<detail>`: the line only covers a
@@ -214,6 +221,7 @@ func main() {
 
 	// pass 2: write sites
 	var writes []Write
+	var stacks []StackLit
 	var globals []string
 	for _, p := range pkgs {
 		for n := range p.vars {
@@ -223,6 +231,7 @@ func main() {
 			a := &analysis{fset: fset, p: p, file: rel, f: f, imports: importMap(f, byDir), byDir: byDir}
 			a.run()
 			writes = append(writes, a.out...)
+			stacks = append(stacks, a.stacks...)
 		}
 	}
 	sort.Strings(globals)
@@ -252,6 +261,19 @@ func main() {
 	}
 	writes = w2
 
+	sort.Slice(stacks, func(i, j int) bool {
+		if stacks[i].File != stacks[j].File {
+			return stacks[i].File < stacks[j].File
+		}
+		return stacks[i].Line < stacks[j].Line
+	})
+	var multi []StackLit
+	for _, st := range stacks {
+		if st.Keys > 1 || st.Keys < 0 {
+			multi = append(multi, st)
+		}
+	}
+
 	allows := readAllow(*allowF)
 	var bad []Write
 	for _, w := range writes {
@@ -274,10 +296,10 @@ func main() {
 	}
 
 	if *coq != "" {
-		writeCoq(*coq, globals, writes, allows)
+		writeCoq(*coq, globals, writes, allows, stacks)
 	}
 	rep := map[string]interface{}{"globals": len(globals), "writes": len(writes), "allow_lines": len(allows),
-		"not_allowed": bad, "unused_allow_lines": unused}
+		"not_allowed": bad, "unused_allow_lines": unused, "resume_stack_constructions": len(stacks), "resume_stack_not_single_key": multi}
 	b, _ := json.MarshalIndent(rep, "", " ")
 	if *jsonF != "" {
 		os.WriteFile(*jsonF, append(b, '\n'), 0o644)
@@ -402,6 +424,7 @@ type analysis struct {
 	imports map[string]*pkgInfo
 	byDir   map[string]*pkgInfo
 	out     []Write
+	stacks  []StackLit
 	fn      string
 }
 
@@ -465,7 +488,52 @@ func (a *analysis) add(pos token.Pos, v, kind, detail string) {
 	a.out = append(a.out, Write{File: a.file, Line: a.fset.Position(pos).Line, Var: v, Kind: kind, Detail: detail, Func: a.fn})
 }
 
+// isResumeStackType: `ResumeStack` inside html/tree, `<import of html/tree>.ResumeStack` elsewhere
+func (a *analysis) isResumeStackType(t ast.Expr) bool {
+	switch t := t.(type) {
+	case *ast.Ident:
+		return t.Name == "ResumeStack" && a.p.dir == "html/tree"
+	case *ast.SelectorExpr:
+		if id, ok := t.X.(*ast.Ident); ok && t.Sel.Name == "ResumeStack" {
+			if ip := a.imports[id.Name]; ip != nil && ip.dir == "html/tree" {
+				return true
+			}
+		}
+	}
+	return false
+}
+
+func (a *analysis) stackLit(cl *ast.CompositeLit) {
+	a.stacks = append(a.stacks, StackLit{File: a.file, Line: a.fset.Position(cl.Pos()).Line, Keys: len(cl.Elts)})
+	for _, e := range cl.Elts {
+		if kv, ok := e.(*ast.KeyValueExpr); ok {
+			if inner, ok := kv.Value.(*ast.CompositeLit); ok && inner.Type == nil {
+				a.stackLit(inner) // elided type: a nested ResumeStack
+			}
+		}
+	}
+}
+
+func (a *analysis) collectStacks() {
+	ast.Inspect(a.f, func(n ast.Node) bool {
+		switch x := n.(type) {
+		case *ast.CompositeLit:
+			if x.Type != nil && a.isResumeStackType(x.Type) {
+				a.stackLit(x)
+			}
+		case *ast.CallExpr:
+			if id, ok := x.Fun.(*ast.Ident); ok && id.Name == "make" && len(x.Args) > 0 && a.isResumeStackType(x.Args[0]) {
+				a.stacks = append(a.stacks, StackLit{File: a.file, Line: a.fset.Position(x.Pos()).Line, Keys: -1})
+			} else if a.isResumeStackType(x.Fun) { // conversion T(x)
+				a.stacks = append(a.stacks, StackLit{File: a.file, Line: a.fset.Position(x.Pos()).Line, Keys: -1})
+			}
+		}
+		return true
+	})
+}
+
 func (a *analysis) run() {
+	a.collectStacks()
 	for _, d := range a.f.Decls {
 		switch d := d.(type) {
 		case *ast.FuncDecl:
@@ -664,7 +732,7 @@ func (a *Allow) needsOK(w Write, all []Write) bool {
 
 func coqStr(s string) string { return "\"" + strings.ReplaceAll(s, "\"", "\"\"") + "\"" }
 
-func writeCoq(path string, globals []string, writes []Write, allows []Allow) {
+func writeCoq(path string, globals []string, writes []Write, allows []Allow, stacks []StackLit) {
 	var sb strings.Builder
 	sb.WriteString("(* GENERATED by /verif/tools/globalwrites from /repo's working tree -- do not edit.\n")
 	sb.WriteString("   Package-level variables of the module (non-test files), every syntactic write site on them\n")
@@ -690,6 +758,18 @@ func writeCoq(path string, globals []string, writes []Write, allows []Allow) {
 			sb.WriteString(";\n")
 		}
 		fmt.Fprintf(&sb, "  GA %s %s %s %s %s %s", coqStr(a.Var), coqStr(a.Kind), coqStr(a.Detail), coqStr(a.NeedVar), coqStr(a.NeedKind), coqStr(a.NeedDetail))
+	}
+	sb.WriteString("\n].\n\n(* every construction of a tree.ResumeStack in the module: composite literals with their number\n   of entries (nested elided-type literals included); make()/conversions would appear with SKUnknown *)\n")
+	sb.WriteString("Definition resume_stack_sites : list stack_site := [\n")
+	for i, st := range stacks {
+		if i > 0 {
+			sb.WriteString(";\n")
+		}
+		if st.Keys < 0 {
+			fmt.Fprintf(&sb, "  SS %s %d SKUnknown", coqStr(st.File), st.Line)
+		} else {
+			fmt.Fprintf(&sb, "  SS %s %d (SKeys %d)", coqStr(st.File), st.Line, st.Keys)
+		}
 	}
 	sb.WriteString("\n].\n")
 	old, _ := os.ReadFile(path)
